@@ -5,6 +5,8 @@ TRUSTED = [
     "Lean 4.33.0 kernel; axioms of every theorem audited",
     "hand-written control-flow model Model/Ctl.lean of the built-in DKG KeyGen (three wait loops woken by OnMsg and the context monitor) and of the orchestrator's result channel; "
     "tied by fault-point enumeration on the real code (harness component faults), not step by step: real time and goroutine scheduling are outside the model",
+    "Props/C11Dkg.lean: the same cancellation and panic-freedom facts on the data-level model Model/Dkg.lean (tables, validateCommitments, assembleThresholdPublicKey), which the lockstep component dkgstep compares with the real KeyGen goroutines step by step (VerifPark hook): "
+    "after the context ended the next wake-up returns, a returned call is absorbing, and no event sequence whose messages are attributed to other members reaches a panic (run_no_panic_members); outsider_key_panics shows that hypothesis is needed and is what C03 outsiders_inert provides",
     "extractor 'blocking': census of select / channel / Wait constructs in the functions of a KeyGen/Sign call with their escape, regenerated from the Go AST",
 ]
 ASSUME = [
@@ -15,8 +17,9 @@ ASSUME = [
 
 def main():
     c = Check("C11")
-    c.prove(gen=["blocking", "stmts"])
+    c.prove(gen=["blocking", "stmts"], modules=["TSSVerif.Props.C11", "TSSVerif.Props.C11Dkg"])
     c.correspond("faults")
+    c.correspond("dkgstep")
     c.correspond("orch")
     return c.finish(
         rule="faults: built-in backends wired directly (n=3,t=2; BLS quick, BLS+PS thorough): for every party P and every k=0..(messages P sends in a complete run) everything P sends after its k-th message is dropped, and every single message "
